@@ -6,8 +6,8 @@ from concurrent.futures import ThreadPoolExecutor
 ROOT = os.path.dirname(os.path.dirname(os.path.abspath(__file__)))
 COQ = os.path.join(ROOT, "coq")
 BUILD = os.path.join(ROOT, "build")
-REPO = "/repo"
-CRATE = "/repo/oxidize-pdf-core"
+REPO = os.environ.get("OXVERIF_REPO", "/repo")
+CRATE = os.path.join(REPO, "oxidize-pdf-core")
 GUARD = "oxidizepdf_verif"
 OXH = os.path.join(BUILD, "cargo-target", "debug", "oxh")
 COQ_INC = ["-Q", os.path.join(COQ, "theories"), "OxVerif", "-Q", os.path.join(COQ, "Gen"), "OxGen"]
@@ -31,6 +31,14 @@ def sh(cmd, timeout=600, cwd=None, env=None, input=None):
         return p.returncode, p.stdout.decode("utf-8", "replace")
     except subprocess.TimeoutExpired as ex:
         return 124, (ex.stdout or b"").decode("utf-8", "replace") + "\n[timeout]"
+
+
+def write_cargo_toml():
+    h = os.path.join(ROOT, "harness")
+    t = open(os.path.join(h, "Cargo.toml.in")).read().replace("@REPO@", REPO)
+    p = os.path.join(h, "Cargo.toml")
+    if not os.path.exists(p) or open(p).read() != t:
+        open(p, "w").write(t)
 
 
 class Lock:
@@ -85,9 +93,7 @@ class Run:
     def coq_make(self, targets, timeout=1500):
         """build the given .vo targets (and their dependencies) with the generated Makefile"""
         with Lock("coq"):
-            if not os.path.exists(os.path.join(COQ, "Makefile")) or \
-               os.path.getmtime(os.path.join(COQ, "Makefile")) < os.path.getmtime(os.path.join(COQ, "_CoqProject")):
-                sh("coq_makefile -f _CoqProject -o Makefile", cwd=COQ)
+            sh("./mkproject.sh", cwd=COQ)
             rc, out = sh(["make", "-j16"] + targets, timeout=timeout, cwd=COQ)
         if rc != 0:
             m = re.findall(r'File "([^"]+)", line (\d+)', out)
@@ -185,6 +191,7 @@ class Run:
     # ---------------------------------------------------------------- harness side
     def build_harness(self, timeout=1500):
         with Lock("cargo"):
+            write_cargo_toml()
             rc, out = sh("cargo build --offline 2>&1 | grep -v '^warning\\|^ *|\\|^ *-->\\|^ *=\\|^$\\|^\\.\\.\\.' | tail -40",
                          timeout=timeout, cwd=os.path.join(ROOT, "harness"),
                          env={"RUSTFLAGS": "--cfg " + GUARD + " -Awarnings"})
@@ -334,3 +341,38 @@ class Run:
             self.pid, self.tier, self.seed, self.discharged, self.obligations, self.cov["evaluations"],
             self.cov["distinct_nontrivial"], wall, "FAIL" if self.violations else "ok"))
         return 1 if self.violations else 0
+
+
+def standard(r, prop, proof_targets, model_targets, channels, classify=None, allow_axioms=(), pre=None,
+             harness_timeout=1500, eval_timeout=1200, extra=()):
+    """The common flow: proofs -> audit -> harness -> Coq evaluation of every channel -> triage.
+    When an obligation or the correspondence is broken in a quick run and no failing input was found,
+    the search is widened once with the thorough generator before reporting no-failing-input-found."""
+    ok = r.coq_make(proof_targets)
+    if ok:
+        r.props_compile(allow_axioms)
+    else:
+        r.coq_make(model_targets)      # models must still evaluate when a proof breaks
+        r.proof_broken = r.proof_broken[:1]
+    if pre:
+        pre(r)
+    if not r.build_harness():
+        r.corr_broken.append("harness does not build against the current tree")
+        return r.finish()
+    for attempt in (0, 1):
+        if attempt == 1:
+            real = [v for v in r.violations if not v[2]]
+            if r.tier != "quick" or r.replay or real or not (r.proof_broken or r.corr_broken):
+                break
+            r.note("obligation broken: widening the search (thorough generator, seed+1)")
+        out, rc, log = r.harness(prop, cases_from=r.replay, tier=("thorough" if attempt else r.tier),
+                                 seed=r.seed + attempt, sub="%s_%d" % (prop, attempt), timeout=harness_timeout, extra=extra)
+        if rc != 0:
+            r.corr_broken.append("harness %s failed (exit %d): %s" % (prop, rc, log[-300:]))
+            break
+        for ch in channels:
+            if not os.path.exists(os.path.join(out, ch + ".meta.json")):
+                continue
+            meta, fails = r.coq_eval(out, ch, timeout=eval_timeout)
+            r.handle_fails(ch, meta, fails, classify)
+    return r.finish()
